@@ -26,6 +26,11 @@ pub trait NatCtx: Ctx + Eq + 'static {
     /// (p, q, g)
     fn pqg(&self) -> (BigUint, BigUint, BigUint);
     fn hash_to_element(&self, bytes: &[u8]) -> BigUint;
+    /// `element_from_string_radix`
+    fn e_from_str(&self, s: &str, radix: u32) -> Result<Self::E, strand::util::StrandError>;
+    /// `to_string_radix` of an element / an exponent
+    fn e_to_str(e: &Self::E, radix: u32) -> String;
+    fn x_to_str(x: &Self::X, radix: u32) -> String;
 }
 
 impl<P: nb::BigintCtxParams + 'static> NatCtx for nb::BigintCtx<P> {
@@ -57,6 +62,15 @@ impl<P: nb::BigintCtxParams + 'static> NatCtx for nb::BigintCtx<P> {
     fn hash_to_element(&self, bytes: &[u8]) -> BigUint {
         nb::verif::hash_to_element(self, bytes)
     }
+    fn e_from_str(&self, s: &str, radix: u32) -> Result<Self::E, strand::util::StrandError> {
+        self.element_from_string_radix(s, radix)
+    }
+    fn e_to_str(e: &Self::E, radix: u32) -> String {
+        e.to_string_radix(radix)
+    }
+    fn x_to_str(x: &Self::X, radix: u32) -> String {
+        x.to_string_radix(radix)
+    }
 }
 
 impl<P: mal::MalachiteCtxParams + 'static> NatCtx for mal::MalachiteCtx<P> {
@@ -87,6 +101,15 @@ impl<P: mal::MalachiteCtxParams + 'static> NatCtx for mal::MalachiteCtx<P> {
     }
     fn hash_to_element(&self, bytes: &[u8]) -> BigUint {
         nat_to_big(&mal::verif::hash_to_element(self, bytes))
+    }
+    fn e_from_str(&self, s: &str, radix: u32) -> Result<Self::E, strand::util::StrandError> {
+        self.element_from_string_radix(s, radix as u8)
+    }
+    fn e_to_str(e: &Self::E, radix: u32) -> String {
+        e.to_string_radix(radix as u8)
+    }
+    fn x_to_str(x: &Self::X, radix: u32) -> String {
+        x.to_string_radix(radix as u8)
     }
 }
 
